@@ -450,8 +450,8 @@ def collector_prep(prog, shape, infoA, a_val, nm):
     frames = [f"AMQPFrame::Method({a_val}, {rust_method_struct(prog, 'Basic', meth, nm, expr_of)})"]
     if st_kind == 'Body':
         size, have = nm.i(infoA['body_size']), nm.i(infoA['have'])
-        if size > (1 << 20):
-            return None
+        if have > (1 << 20):
+            return None      # the bytes already received have to be fed natively; the announced size is just a number
         frames.append(f"AMQPFrame::Header({a_val}, 60, Box::new(AMQPContentHeader {{ class_id: 60, weight: 0, body_size: {size}, properties: Default::default() }}))")
         if have > 0:
             frames.append(f"AMQPFrame::Body({a_val}, vec![7u8; {have}])")
@@ -523,6 +523,13 @@ def small_model(ctx, pc, claim, fs_list, infoA, w):
     if r == 'sat':
         return m
     r, m, _ = ctx.solve(list(pc) + extra + [z3.Not(claim)])
+    if r == 'sat':
+        return m
+    # announced sizes may have to be huge (64-bit fields): keep at least what must be fed byte by byte small
+    small_bytes = [e for e in extra if 'Body' in str(e) or '.1.len' in str(e)]
+    if infoA and 'have' in infoA:
+        small_bytes.append(z3.ULE(infoA['have'], 256))
+    r, m, _ = ctx.solve(list(pc) + small_bytes + [z3.Not(claim)])
     if r == 'sat':
         return m
     r, m, _ = ctx.solve(list(pc) + [z3.Not(claim)])
